@@ -1,5 +1,14 @@
 package main
 
+import (
+	"go/ast"
+	"go/token"
+	"sort"
+	"strings"
+
+	"golang.org/x/tools/go/ssa"
+)
+
 // Structural obligations (back end "ssa-frame"): properties of the shape of the
 // code decided by scanning the SSA of the current tree (encapsulation, field
 // coverage, table invariants, dominance). Each is a named obligation.
@@ -30,6 +39,96 @@ func (e *Engine) structuralChecks(prop string) []*StructObl {
 		if hasProp(sc.props, prop) {
 			out = append(out, sc.run(e)...)
 		}
+	}
+	return out
+}
+
+// ---------------------------------------------------------------------------
+// globals-immutable: package-level variables that global facts speak about are
+// assigned only by their package initialiser, and the *big.Int objects they
+// point to are never the receiver of a mutating method.
+
+func init() {
+	registerStruct([]string{"ALL"}, func(e *Engine) []*StructObl { return e.globalsImmutable() })
+}
+
+func (e *Engine) factGlobals() map[*ssa.Global]string {
+	out := map[*ssa.Global]string{}
+	for _, sf := range e.specFiles {
+		sp := e.spkgs[sf.Pkg]
+		if sp == nil {
+			continue
+		}
+		for _, g := range sf.Globals {
+			ast.Inspect(g.Expr, func(n ast.Node) bool {
+				if id, ok := n.(*ast.Ident); ok {
+					if gv, ok := sp.Members[id.Name].(*ssa.Global); ok {
+						out[gv] = strings.TrimPrefix(sf.Pkg, repoMod+"/") + "." + id.Name
+					}
+				}
+				return true
+			})
+		}
+	}
+	return out
+}
+
+func (e *Engine) globalsImmutable() []*StructObl {
+	facts := e.factGlobals()
+	viol := map[*ssa.Global][]string{}
+	for fn := range e.allFuncs {
+		if fn.Synthetic == "package initializer" {
+			continue
+		}
+		for _, b := range fn.Blocks {
+			for _, in := range b.Instrs {
+				switch x := in.(type) {
+				case *ssa.Store:
+					if g := globalRoot(x.Addr, 0); g != nil {
+						if _, ok := facts[g]; ok {
+							viol[g] = append(viol[g], "assigned in "+fn.String()+" at "+e.posString(x.Pos()))
+						}
+					}
+				case ssa.CallInstruction:
+					com := x.Common()
+					callee, ok := com.Value.(*ssa.Function)
+					if !ok || len(com.Args) == 0 {
+						continue
+					}
+					m := lookupModel(callee)
+					if m == nil || len(m.mods) == 0 {
+						continue
+					}
+					// receiver loaded directly from a fact global?
+					if ld, ok := com.Args[0].(*ssa.UnOp); ok && ld.Op == token.MUL {
+						if g, ok := ld.X.(*ssa.Global); ok {
+							if _, isFact := facts[g]; isFact {
+								viol[g] = append(viol[g], "mutated by "+callee.Name()+" in "+fn.String()+" at "+e.posString(in.Pos()))
+							}
+						}
+					}
+				}
+			}
+		}
+	}
+	var names []string
+	byName := map[string]*ssa.Global{}
+	for g, n := range facts {
+		names = append(names, n)
+		byName[n] = g
+	}
+	sort.Strings(names)
+	var out []*StructObl
+	for _, n := range names {
+		g := byName[n]
+		o := &StructObl{Name: "globals-immutable/" + n, Group: "globals-immutable/" + n, Clause: "package-level variable " + n + " is assigned only by its package initialiser and never mutated in place", OK: len(viol[g]) == 0}
+		if !o.OK {
+			sort.Strings(viol[g])
+			o.Detail = strings.Join(viol[g], "; ")
+		} else {
+			o.Detail = "no store and no mutating big.Int/uint256 method call on it outside the initialiser (whole-program SSA scan)"
+		}
+		out = append(out, o)
 	}
 	return out
 }
